@@ -260,6 +260,7 @@ static Verdict enumerate(int tier, int shard, int nshards, Fields *failing) {
   if (shard != 0) return Verdict::pass();
   for (size_t extra : {(size_t)1, (size_t)4096, (size_t)INT_MAX})
     for (int entry = 0; entry < 2; entry++) {
+      { Fields c; c.seti("huge_range_extra", (long long)extra); c.seti("entry", entry); note_case(c); }
       Verdict v = huge_range<Api<char>>(extra, entry);
       if (v.kind == Verdict::PASS) v = huge_range<Api<wchar_t>>(extra, entry);
       stats().evaluations++;
